@@ -518,7 +518,7 @@ func (p *Parser) parseCommodityDirective(startPos Position) ast.Directive {
 				Symbol: p.current.Value,
 				Range:  ast.Range{Start: toASTPosition(p.current.Pos)},
 			}
-			dir.Format = number + " " + p.current.Value
+			dir.Format = number + " " + p.commodityAsWritten(p.current)
 			p.advance()
 		}
 	case TokenText:
@@ -547,6 +547,15 @@ func (p *Parser) parseCommodityDirective(startPos Position) ast.Directive {
 
 	dir.Range.End = toASTPosition(p.current.Pos)
 	return dir
+}
+
+// commodityAsWritten returns a commodity token's text including the quotes of a
+// quoted commodity (the token value has them stripped).
+func (p *Parser) commodityAsWritten(tok Token) string {
+	if tok.Type == TokenCommodity && tok.Pos.Offset < len(p.lexer.input) && p.lexer.input[tok.Pos.Offset] == '"' {
+		return `"` + tok.Value + `"`
+	}
+	return tok.Value
 }
 
 func (p *Parser) parseIncludeDirective(startPos Position) ast.Directive {
@@ -691,7 +700,7 @@ func (p *Parser) parseDefaultCommodityDirective(startPos Position) ast.Directive
 
 		if p.current.Type == TokenCommodity || p.current.Type == TokenText {
 			dir.Symbol = p.current.Value
-			dir.Format = number + " " + p.current.Value
+			dir.Format = number + " " + p.commodityAsWritten(p.current)
 			p.advance()
 		}
 	}
